@@ -39,19 +39,43 @@ Definition jar_gate_par (cfg : config) (c : client) : bool :=
 Definition ciba_jar_gate (cfg : config) : bool :=
   andb (cf_ciba_jar_enabled cfg) (cf_ciba_jar_required cfg).
 
-Definition auth_client_ok (c : client) : bool :=
-  orb (has_grant GAuthorizationCode (c_grants c)) (has_grant GImplicit (c_grants c)).
-
+(* initAuth with authnSession's three-way decision: PAR, then JAR, then the plain request.
+   The text is Authorize.init_auth with the JAR branch added (Proofs/C11Proofs.v:
+   init_auth_g_off, it is init_auth when JAR is not enabled). *)
 Definition init_auth_g (w : world) (n : nat) (now : Z) (r : areq) : prog out :=
   let cfg := w_cfg w in
-  if is_nil (ar_client r) then init_auth w n now r else
+  if is_nil (ar_client r) then Ret (OErr EInvalidClient) else
   bind (get_client w (ar_client r)) (fun oc =>
   match oc with
+  | None => Ret (OErr EInvalidClient)
   | Some c =>
-      if andb (auth_client_ok c) (andb (negb (should_use_par cfg (ar_params r) c)) (jar_gate cfg c (ar_params r)))
-      then Ret (OErr EInvalidRequest)
-      else init_auth w n now r
-  | None => init_auth w n now r
+    if negb (orb (has_grant GAuthorizationCode (c_grants c)) (has_grant GImplicit (c_grants c)))
+    then Ret (OErr EInvalidClient) else
+    if should_use_par cfg (ar_params r) c then
+      if is_nil (p_request_uri (ar_params r)) then Ret (OErr EInvalidRequest) else
+      Do (AByPar (p_request_uri (ar_params r))) (fun rp =>
+      match rp with
+      | RASess s =>
+        let verdict :=
+          if negb (ideq (a_client s) (ar_client r)) then Some (ALocal EAccessDenied) else
+          if geb now (a_expires s) then Some (ALocal EInvalidRequest) else
+          validate_in_out cfg (a_params s) (ar_params r) (client_for_par cfg c (p_redirect (a_params s))) in
+        match verdict with
+        | Some e => Do (ADel (a_id s)) (fun rd => match rd with RFail => Ret (OErr EInternalError) | _ => Ret (render_aerr cfg c e) end)
+        | None =>
+          let s' := if is_fapi (cf_profile cfg) then s
+                    else s <| a_params := merge_params (a_params s) (ar_params r) |> in
+          bind (start_session w n now c s' r) (fun a => Ret (finish_ares cfg c a))
+        end
+      | _ => Ret (OErr EInvalidRequest)
+      end)
+    else if jar_gate cfg c (ar_params r) then Ret (OErr EInvalidRequest)   (* "request object is required" *)
+    else
+      match validate_params cfg (ar_params r) c with
+      | Some e => Ret (render_aerr cfg c e)
+      | None => bind (start_session w n now c (new_session n c (ar_params r <| p_request_uri := 0%N |>)) r)
+                     (fun a => Ret (finish_ares cfg c a))
+      end
   end).
 
 Definition push_auth_g (w : world) (n : nat) (now : Z) (r : preq) : prog out :=
